@@ -75,9 +75,9 @@ theorem nextTokenMustBe_same (env : Env) (types : List String) (w w1 : World) (c
         simp [bind, interp_bind, pure, interp] at h
 
 /-- a concept definition inside a class body never succeeds -/
-theorem concept_in_class (env : Env) (F : Nat) (doxygen : Option String) (template : TemplateDecl)
+theorem concept_in_class (env : Env) (F : Nat) (ctok : CTok) (doxygen : Option String) (template : TemplateDecl)
     (w : World) (blk : Block) (rest : List Block) (hstack : w.stack = blk :: rest) (hk : blk.view.kind = .cls)
-    (w' : World) (r : Except Err Unit) (h : interp env (parseConcept F doxygen template) w = (w', r)) :
+    (w' : World) (r : Except Err Unit) (h : interp env (parseConcept F ctok doxygen template) w = (w', r)) :
     ∃ e, r = .error e := by
   unfold parseConcept at h
   simp only [bind, interp_bind] at h
